@@ -345,9 +345,12 @@ fn sigmf_archive_case(rng: &mut Rng, idx: usize, dir: &std::path::Path) -> Vec<S
         }
         b.finish().unwrap();
     }
-    let built = quiet(|| SigMFSourceBuilder::<u8>::new(path.clone()).build());
+    // played once or twice: every pass must read the data member's bytes
+    let plays = if rng.chance(1, 2) { 1u64 } else { 2 };
+    let built = quiet(|| SigMFSourceBuilder::<u8>::new(path.clone()).repeat(rustradio::Repeat::finite(plays)).build());
     let names: Vec<&str> = members.iter().map(|m| m.0.as_str()).collect();
-    let detail = format!("#{idx} len={len} members={names:?}");
+    let detail = format!("#{idx} len={len} plays={plays} members={names:?}");
+    let data: Vec<u64> = (0..plays).flat_map(|_| data.clone()).collect();
     match built {
         Err(p) => out.push(format!("!bytes sigmf_archive {detail}\tFAIL panic: {p}")),
         Ok(Err(e)) => out.push(format!(
